@@ -81,6 +81,7 @@ type vrec struct {
 	Len    int    `json:"len"`
 	Detail any    `json:"detail,omitempty"`
 	Fatal  bool   `json:"fatal,omitempty"` // the child exits after this record (watchdog)
+	Raw    []byte `json:"-"`               // the input bytes (for the attribution by input shape)
 }
 
 type grec struct {
@@ -189,12 +190,17 @@ func startWatchdog() {
 				buf := make([]byte, 1<<20)
 				n := runtime.Stack(buf, true)
 				site, excerpt := hangSite(string(buf[:n]), ci.marker)
-				sig := friendlySig("cpu-hang/" + site)
+				sig := friendlySigFor("cpu-hang/"+site, ci.data)
 				what := fmt.Sprintf("the call consumed %.1fs of CPU time (limit %v) and has not returned; input %d bytes", used.Seconds(), cpuLimit, len(ci.data))
 				if al := totalAlloc() - ci.alloc0.Load(); al > allocBound(len(ci.data)) && strings.Contains(site, ":reflect.") {
 					// the time goes into a huge allocation: the same defect as an allocation out of proportion
-					sig = friendlySig("alloc-amplification/" + site)
+					sig = friendlySigFor("alloc-amplification/"+site, ci.data)
 					what = fmt.Sprintf("the call allocated %d bytes (bound %d) and was still busy with that memory after %.1fs of CPU time; input %d bytes", al, allocBound(len(ci.data)), used.Seconds(), len(ci.data))
+				}
+				if spec.Mode == "live" && strings.HasPrefix(sig, "cpu-hang/") {
+					// the process that hosts the node spins after hostile traffic
+					what = "node process: " + what + " (busy at " + site + ")"
+					sig = "node-hang-after-hostile-input"
 				}
 				writeRec(vrec{T: "v", Case: ci.caseID, Idx: ci.idx, Sig: sig, Fatal: true, Len: len(ci.data), Hex: hexOf(ci.data),
 					What: what, Detail: map[string]any{"stack": excerpt}})
@@ -272,6 +278,91 @@ func friendlySig(sig string) string {
 		return "alloc-by-declared-size/decompress"
 	}
 	return sig
+}
+
+// friendlySigFor: friendlySig plus the attribution by input shape. A CPU hang or an allocation out of proportion
+// inside the decoder whose input declares an array of zero-size elements with a count far beyond the input is the
+// listed finding "zero-size-array-elements-loop", whichever decoder closure (decodeType's array loop, the decoder
+// of the registered zero-size element type, reflect.Value.Index ...) happened to be innermost on the stack.
+func friendlySigFor(sig string, data []byte) string {
+	f := friendlySig(sig)
+	if f != sig && !strings.HasPrefix(f, "alloc-amplification/") && !strings.HasPrefix(f, "cpu-hang/") {
+		return f
+	}
+	if (strings.HasPrefix(sig, "cpu-hang/") || strings.HasPrefix(sig, "alloc-amplification/")) && !strings.Contains(sig, "lib.") && declaresZeroSizeArray(data) {
+		return "zero-size-array-elements-loop"
+	}
+	return f
+}
+
+// zero-size registered types of the harness (every registered framework type has a non-zero size)
+var zeroSizeRegNames = map[string]bool{"#main/NEmpty": true, "#main/NArr0": true}
+
+// foldZero parses one folded type; zero: values of it have size zero; bomb: it contains an array of more than
+// 2^20 zero-size elements
+func foldZero(f []byte, depth int) (zero, bomb bool, rest []byte, ok bool) {
+	if len(f) == 0 || depth > 64 {
+		return false, false, nil, false
+	}
+	switch f[0] {
+	case 157:
+		_, b, r, ok := foldZero(f[1:], depth+1)
+		return false, b, r, ok
+	case 159:
+		_, b1, r, ok := foldZero(f[1:], depth+1)
+		if !ok {
+			return false, false, nil, false
+		}
+		_, b2, r, ok := foldZero(r, depth+1)
+		return false, b1 || b2, r, ok
+	case 158:
+		if len(f) < 6 {
+			return false, false, nil, false
+		}
+		n := uint32(f[1])<<24 | uint32(f[2])<<16 | uint32(f[3])<<8 | uint32(f[4])
+		ez, eb, r, ok := foldZero(f[5:], depth+1)
+		if !ok {
+			return false, false, nil, false
+		}
+		return n == 0 || ez, eb || (ez && n > 1<<20), r, true
+	case 131:
+		if len(f) < 3 {
+			return false, false, nil, false
+		}
+		l := int(f[1])<<8 | int(f[2])
+		if l > 4095 {
+			name := ""
+			if len(optsets) > 1 && optsets[1].dec.RegCache != nil {
+				if v, found := optsets[1].dec.RegCache.Load(uint16(l)); found {
+					name = v.(string)
+				}
+			}
+			return zeroSizeRegNames[name], false, f[3:], true
+		}
+		if len(f) < 3+l {
+			return false, false, nil, false
+		}
+		return zeroSizeRegNames[string(f[3:3+l])], false, f[3+l:], true
+	}
+	return false, false, f[1:], true
+}
+
+// declaresZeroSizeArray: somewhere in the bytes (top level, behind an any, inside a frame) there is a well-formed
+// type descriptor that declares an array of more than 2^20 zero-size elements
+func declaresZeroSizeArray(in []byte) bool {
+	for o := 0; o+3 < len(in); o++ {
+		if in[o] != 130 {
+			continue
+		}
+		n := int(in[o+1])<<8 | int(in[o+2])
+		if n < 6 || o+3+n > len(in) {
+			continue
+		}
+		if _, bomb, rest, ok := foldZero(in[o+3:o+3+n], 0); ok && bomb && len(rest) == 0 {
+			return true
+		}
+	}
+	return false
 }
 
 func hangSite(all string, marker string) (string, string) {
@@ -464,7 +555,7 @@ var violSeen = map[string]int{}
 
 func violation(v vrec) {
 	v.T = "v"
-	v.Sig = friendlySig(v.Sig)
+	v.Sig = friendlySigFor(v.Sig, v.Raw)
 	violSeen[v.Sig]++
 	if violSeen[v.Sig] > 3 {
 		v.Hex = ""
